@@ -414,10 +414,10 @@ Proof.
   destruct (compute_required_slots sectors sectors_per_block) as [nblocks last_block].
   set (alloc := firstn (Z.to_nat nblocks) (free_blocks (fat sd) 0)).
   destruct (zlen alloc <? nblocks); [discriminate|].
-  destruct (write_slices (S (length content)) sd (fat sd) alloc content last_block 0 0 0 (zlen content))
-    as [[sd1 bat1]|er] eqn:Ews; [|discriminate].
   destruct (nth_error alloc 0) as [first|]; [|discriminate].
   destruct (new_record name ext kind dtype first last_sector) as [rec|er] eqn:Erec; [|discriminate].
+  destruct (write_slices (S (length content)) sd (fat sd) alloc content last_block 0 0 0 (zlen content))
+    as [[sd1 bat1]|er] eqn:Ews; [|discriminate].
   destruct (find_slot (bat_set sd1 bat1) bat1 all_slots) as [[[s off]|]|er] eqn:Efs; try discriminate.
   intros H. injection H as <-.
   (* the slice loop and the table setter leave the catalogue sectors alone *)
